@@ -24,7 +24,7 @@ def emit(ctx, exclude=(), reduced=()):
     binary = common.cargo_build("layoutmon", "fastdebug")
     d = crate_dir(ctx)
     count = 8 if ctx.quick else 48
-    caps = "0,8" if ctx.quick else "0,1,8"
+    caps = "0,5" if ctx.quick else "0,1,8"
     cmd = [binary, "emit", "--seed", str(ctx.seed), "--count", str(count), "--out-dir", d, "--caps", caps]
     if exclude:
         cmd += ["--exclude", ",".join(sorted(exclude))]
